@@ -47,8 +47,24 @@ pub struct Exec {
 pub fn budget_for(scn: &Scenario, r: &Ref) -> u64 {
     let threads = scn.final_nt().map(|n| if n == 0 { scn.avail } else { n }).unwrap_or(scn.avail).max(1) as u64;
     let w = r.work + r.calls.len() as u64 + r.finals.len() as u64 * 4 + scn.vals.len() as u64 * 2;
-    // generous: a correct run needs about 2 * w + 8 * threads steps
-    20_000 + 40 * w + 400 * threads
+    // generous: a correct run over a finite source needs about 2 * w + 8 * threads steps, whatever the schedule
+    let base = 20_000 + 40 * w + 400 * threads;
+    if scn.src == Src::IterEndless {
+        // on an unbounded source the other threads keep pulling while the thread that holds the match waits
+        // for its turn: the total depends on the share of steps the policy gives to that thread
+        let slow = match scn.policy {
+            crate::sched::Policy::Starve(_) => 1 + scn.starve_release / 8,
+            _ => 1,
+        };
+        base * (1 + threads / 4) * slow
+    } else {
+        base
+    }
+}
+
+/// Own steps after which a thread has certainly had the time to reach the first match by itself.
+pub fn own_steps_bound(r: &Ref) -> u64 {
+    500 + 4 * (r.work + r.calls.len() as u64)
 }
 
 pub fn cfg_for(scn: &Scenario, r: &Ref, replay: Option<Vec<u16>>, tolerant: bool) -> Cfg {
